@@ -11,6 +11,7 @@
 -/
 import ASV.Proofs.IdsMain
 import ASV.Proofs.IdsGenes
+import ASV.Proofs.IdsOptions
 namespace ASV.C16
 open ASV ASV.Ids ASV.Generated.Ids
 
@@ -157,6 +158,101 @@ theorem record_read_unique_or_rejected (feats : List BioFeat) :
   have hi := fromBiopython_inv feats h ⟨List.nodup_nil, List.nodup_nil⟩ (by simp)
   exact ⟨hi.1.1, locs_nodup_of_keys hi.1.2, fun x hx bad hb hm => hi.2 x hx bad hm hb, genesOk_of_inv hi.1 hi.2⟩
 
+/-! ### the options real runs reach the identifier handling through -/
+
+/-- `pre_process_sequences` with every option combination: when sanitisation is required
+    (neither `reuse_results` nor `skip_sanitisation`) the accepted records satisfy the whole
+    record-level spec; an input is rejected only in the three documented ways -/
+theorem preprocess_with_options_meets_spec (o : Options) (inp : List (Str × Str × Option Str))
+    (recs : List Rec) (skips : List Bool) (hreq : checkingRequired o.reuse o.skip = true)
+    (h : preProcess o inp = .ok (recs, skips)) :
+    IdSpec.recordsOk o.allowLong (inp.map (·.1)) (recs.map toOut) = true ∧ skips.length = recs.length := by
+  unfold preProcess at h
+  rw [if_pos hreq] at h
+  split at h
+  · simp at h
+  · rename_i recs' hp
+    split at h
+    · simp at h
+    · rename_i skips' hf
+      simp only [Except.ok.injEq, Prod.mk.injEq] at h
+      obtain ⟨rfl, rfl⟩ := h
+      refine ⟨post_recordsOk (preProcessIds_post hp), ?_⟩
+      by_cases ht : o.limitTo = []
+      · rw [(filterByName_ok hf).1 ht]; simp
+      · rw [((filterByName_ok hf).2 ht).1]; simp
+
+/-- … and with `reuse_results` / `skip_sanitisation` the identifiers are left exactly as read
+    (only the "record has no name" check and the name filter still apply) -/
+theorem unsanitised_ids_untouched (o : Options) (inp : List (Str × Str × Option Str))
+    (recs : List Rec) (skips : List Bool) (hreq : checkingRequired o.reuse o.skip = false)
+    (h : preProcess o inp = .ok (recs, skips)) :
+    List.Forall₂ (fun p r => r.id = p.1 ∧ r.name = p.2.1 ∧ r.orig = none) inp recs ∧ ∀ r ∈ recs, r.id ≠ [] := by
+  unfold preProcess at h
+  rw [hreq] at h
+  simp only [Bool.false_eq_true, if_false] at h
+  split at h
+  · simp at h
+  · rename_i recs' hp
+    split at h
+    · simp at h
+    · simp only [Except.ok.injEq, Prod.mk.injEq] at h
+      obtain ⟨rfl, _⟩ := h
+      obtain ⟨rfl, hne⟩ := checkNames_ok hp
+      exact ⟨mkRecs_forall₂ 1 inp, hne⟩
+
+/-- `--limit-to-record` after sanitisation: because the sanitised ids are pairwise distinct, the
+    filter keeps exactly one record, the one whose (new) id is the target, and marks all others -/
+theorem limit_to_record_selects_one (o : Options) (inp : List (Str × Str × Option Str))
+    (recs : List Rec) (skips : List Bool) (hreq : checkingRequired o.reuse o.skip = true)
+    (hl : o.limitTo ≠ []) (h : preProcess o inp = .ok (recs, skips)) :
+    skips = recs.map (fun r => r.id != o.limitTo) ∧ recs.countP (·.id == o.limitTo) = 1 := by
+  unfold preProcess at h
+  rw [if_pos hreq] at h
+  split at h
+  · simp at h
+  · rename_i recs' hp
+    split at h
+    · simp at h
+    · rename_i skips' hf
+      simp only [Except.ok.injEq, Prod.mk.injEq] at h
+      obtain ⟨rfl, rfl⟩ := h
+      obtain ⟨hs, hc⟩ := (filterByName_ok hf).2 hl
+      have := countP_le_one_of_nodup (t := o.limitTo) (preProcessIds_post hp).distinct
+      exact ⟨hs, by omega⟩
+
+/-- rejections of the whole option-aware function: the two of the sanitisation, or nobody carries
+    the `--limit-to-record` target (after renaming) -/
+theorem preprocess_rejections (o : Options) (inp : List (Str × Str × Option Str)) (e : Err)
+    (h : preProcess o inp = .error e) : e = .runtime ∨ e = .noName ∨ e = .noMatch := by
+  unfold preProcess at h
+  split at h
+  · rename_i e' hp
+    simp only [Except.error.injEq] at h
+    subst h
+    split at hp
+    · rcases preProcessIds_err hp with h | h
+      · exact Or.inl h
+      · exact Or.inr (Or.inl h)
+    · unfold checkNames at hp
+      split at hp
+      · simp only [Except.error.injEq] at hp
+        exact Or.inr (Or.inl hp.symm)
+      · simp at hp
+  · split at h
+    · rename_i e' hf
+      simp only [Except.error.injEq] at h
+      exact Or.inr (Or.inr (h ▸ (filterByName_err hf).1))
+    · simp at h
+
+/-- `Record.has_name`: after sanitisation every record answers to the identifier it was read with,
+    and to nothing but that and its current identifier (this is how sideloaded annotations find a
+    renamed record) -/
+theorem has_name_answers_to_input_id (allowLong : Bool) (inp : List (Str × Str × Option Str)) (recs : List Rec)
+    (h : preProcessIds allowLong inp = .ok recs) :
+    List.Forall₂ (fun p r => hasName r p.1 = true ∧ ∀ t, hasName r t = true → t = r.id ∨ t = p.1) inp recs :=
+  (preProcessIds_post h).remembers.imp fun _ _ hr => hasName_of_remembers hr
+
 /-- the regenerated illegal-character tables still contain every character they contained when
     the property was written (path separator, blank, shell/GenBank metacharacters; for gene ids
     also tab / newline / carriage return): shrinking a table breaks this obligation -/
@@ -200,6 +296,16 @@ example : (fromBiopython {} [⟨true, .simple ⟨10, 40, .fwd⟩, some "a b".toL
     some ["ab".toList, "ab_e50adf46".toList, "pseudo100_130".toList] := by decide +kernel
 /-- `f"{crc:x}"` drops leading zero nibbles: seven hex digits here -/
 example : locationChecksum (.simple ⟨18, 45, .fwd⟩) = "cdea4e3".toList := by decide +kernel
+/-- options: the renamed duplicate is found under its new id only; the original id as target matches the
+    first record; with sanitisation switched off nothing is renamed and both carry the target -/
+example : (preProcess { limitTo := "a_0".toList } [("a".toList, [], none), ("a".toList, [], none)]).toOption.map (·.2) =
+    some [true, false] := by decide
+example : (preProcess { limitTo := "a".toList } [("a".toList, [], none), ("a".toList, [], none)]).toOption.map (·.2) =
+    some [false, true] := by decide
+example : (preProcess { skip := true, limitTo := "a".toList } [("a".toList, [], none), ("a".toList, [], none)]).toOption.map (·.2) =
+    some [false, false] := by decide
+example : (match preProcess { limitTo := "a:b".toList } [("a:b".toList, [], none)] with
+           | .error .noMatch => true | _ => false) = true := by decide
 /-- D60 witness: the generated name is already there → input error `dupName` (used to be a bare `assert`) -/
 example : (match addCds (runOps {} [.cds (.simple ⟨100, 130, .fwd⟩) (some "geneX_e50adf46".toList) none none,
                                     .cds (.simple ⟨10, 40, .fwd⟩) (some "geneX".toList) none none])
